@@ -91,6 +91,16 @@ def sweep_serial(sw, r, tier):
                 sw.check(back[1].value == n and back[1].format(fmt) == text, "the asset formatter does not read back what it printed", {**case, "clause": "asset-roundtrip", "fmt": fmt, "text": text}, [n, text], [back[1].value, back[1].format(fmt)])
             else:
                 sw.check(False, "the asset formatter rejects what it printed", {**case, "clause": "asset-roundtrip", "fmt": fmt, "text": text}, n, back)
+    # two directives that state different numbers (zero among them): whatever the classic formatter makes of the string
+    # - the first statement wins, or the string is refused - the asset formatter makes the same of it
+    for x, y in itertools.permutations([0, 1, 7, 10, 100, 255], 2):
+        for d1, d2 in itertools.product(S_DIRS, repeat=2):
+            try:
+                text = Serial.from_value(x).format(d1) + " " + Serial.from_value(y).format(d2)
+            except Exception:  # noqa: BLE001
+                continue
+            sw.note(["serial-disagree", x, y, d1, d2], "serial-disagree")
+            compare_parse(sw, "serial", ASerial, Serial, text, f"{d1} {d2}", {"cls": "serial", "value": [x, y]})
     # arithmetic and order on pairs
     pairs = list(itertools.product(r.sample(vals, min(len(vals), 8 if tier == "quick" else 20)), repeat=2))
     for x, y in pairs:
